@@ -477,6 +477,11 @@ struct TemplateCore {
                                         } else {
                                             tag.TrueTagsStartID = SizeT8(id);
                                         }
+
+                                        if (!areInLineIfSubTagsValid(tag)) {
+                                            // A sub tag outside of true="..." and false="...".
+                                            storage->Drop(SizeT{1});
+                                        }
                                     }
                                 } else if ((tag.TrueOffset == SizeT16{0}) && (tag.FalseOffset == SizeT16{0})) {
                                     storage->Drop(SizeT{1});
@@ -853,6 +858,38 @@ struct TemplateCore {
             storage->Drop(SizeT{1});
             parent_storage.Drop(SizeT{1});
         }
+    }
+
+    static bool areInLineIfSubTagsValid(const InLineIfTag &tag) noexcept {
+        const TagBit *s_tag       = tag.SubTags.First();
+        const TagBit *s_tag_end   = tag.SubTags.End();
+        const SizeT   true_start  = (tag.Offset + tag.TrueOffset);
+        const SizeT   true_end    = (true_start + tag.TrueLength);
+        const SizeT   false_start = (tag.Offset + tag.FalseOffset);
+        const SizeT   false_end   = (false_start + tag.FalseLength);
+
+        while (s_tag < s_tag_end) {
+            SizeT start;
+            SizeT end;
+
+            if (s_tag->GetType() == TagType::Math) {
+                start = s_tag->GetMathTag().Offset;
+                end   = s_tag->GetMathTag().EndOffset;
+            } else {
+                const VariableTag &var = s_tag->GetVariableTag();
+                start                  = (var.Offset - TagPatterns::VariablePrefixLength);
+                end                    = (var.Offset + var.Length + TagPatterns::InLineSuffixLength);
+            }
+
+            if (!(((tag.TrueOffset != SizeT16{0}) && (start >= true_start) && (end <= true_end)) ||
+                  ((tag.FalseOffset != SizeT16{0}) && (start >= false_start) && (end <= false_end)))) {
+                return false;
+            }
+
+            ++s_tag;
+        }
+
+        return true;
     }
 
     inline static void checkLoopVariable(const Char_T *content, VariableTag &tag, const LoopTag *loop_tag) noexcept {
